@@ -128,6 +128,9 @@ func c11(c *Ctx) {
 		}
 		hs = append(hs, c.fn(tr, "ClientStream.handleNonGRPCData"))
 		c.noExplicitPanics(hs)
+		// bytes chosen by the server reach these decoders on the reader goroutine (an unrecovered panic there kills the process):
+		// their index and slice expressions are in bounds (compiler prove pass or a dominating guard)
+		c.BoundsSafe(tr, c.fn(tr, "decodeGrpcMessage"), c.fn(tr, "decodeGrpcMessageUnchecked"), c.fn(tr, "decodeMetadataHeader"), c.fn(tr, "decodeBinHeader"), c.fn(tr, "isReservedHeader"), c.fn(tr, "isWhitelistedHeader"))
 	})
 	c.Ob("rst-code-mapping", "R6", "the HTTP/2 error-code table has an entry for every ErrCode constant of golang.org/x/net/http2; for RST_STREAM the looked-up status code is used only when the lookup succeeded and every other path yields UNKNOWN (or DEADLINE_EXCEEDED for an expired deadline) - never the zero value OK", 16, func() {
 		// table keys from the package initialiser
